@@ -75,8 +75,9 @@ def discharge(axioms, ob: Obligation, tier: str = "quick", budget_ms: int = 1000
             return Verdict(ob.name, "unknown", "z3-5.1", ms, ob.where, ob.kind, "hypotheses are contradictory: `False` was proved")
         return Verdict(ob.name, "discharged", "z3-5.1", ms, ob.where, ob.kind, f"not refutable ({r}), as required")
     # Stage budgets are z3 resource limits (rlimit, about 2000 units per millisecond on this machine
-    # for e-matching queries) capped by a wall-clock timeout of twice the nominal time: on an idle or a
-    # moderately busy machine the verdict of a stage does not depend on the load.  Order: z3 e-matching
+    # for e-matching queries) capped by a wall-clock timeout (3 x the nominal time for the first stage, whose
+    # failures on the cardinality obligations must be cheap, 8 x for the later ones): the verdict of a
+    # stage does not depend on the load unless the machine is oversubscribed more than that.  Order: z3 e-matching
     # (seed 0); cvc5 on the SMT-LIB dump (the finite-set cardinality obligations are only ever decided
     # by cvc5); z3 e-matching with another seed (instantiation order is seed dependent and the running
     # time heavy-tailed: restarts beat one long run); z3 with MBQI; a third seed with twice the budget;
@@ -84,10 +85,10 @@ def discharge(axioms, ob: Obligation, tier: str = "quick", budget_ms: int = 1000
     trail = []
     state = {"txt": None, "qhash": ""}
 
-    def z3_stage(mbqi, seed, factor):
+    def z3_stage(mbqi, seed, factor, cap=8):
         s = z3.Solver()
         s.set("rlimit", int(budget_ms * 2000 * factor))
-        s.set("timeout", int(budget_ms * 2 * factor))
+        s.set("timeout", int(budget_ms * cap * factor))
         if seed:
             s.set("random_seed", seed)
             s.set("smt.random_seed", seed)
@@ -111,7 +112,7 @@ def discharge(axioms, ob: Obligation, tier: str = "quick", budget_ms: int = 1000
     def elapsed():
         return int((time.time() - t0) * 1000)
 
-    r, s = z3_stage(False, 0, 1)
+    r, s = z3_stage(False, 0, 1, cap=3)
     if r == z3.unsat:
         v = Verdict(ob.name, "discharged", "z3-5.1", elapsed(), ob.where, ob.kind)
         if tier != "thorough":
